@@ -4,6 +4,7 @@ import (
 	"bytes"
 	"go/ast"
 	"go/printer"
+	"go/scanner"
 	"go/token"
 	"sort"
 	"strconv"
@@ -23,6 +24,96 @@ func (p *pkgInfo) src(n ast.Node) string {
 
 func leanStr(s string) string { return strconv.Quote(s) }
 
+// alphaSrc prints a function body with receiver, parameters and local variables renamed to
+// canonical names in order of declaration, so that renaming a variable is not a change.
+func (p *pkgInfo) alphaSrc(fd *ast.FuncDecl) string {
+	names := map[string]string{}
+	add := func(n, canon string) {
+		if n == "_" || n == "" {
+			return
+		}
+		if _, ok := names[n]; !ok {
+			names[n] = canon
+		}
+	}
+	if fd.Recv != nil {
+		for _, f := range fd.Recv.List {
+			for _, n := range f.Names {
+				add(n.Name, "_recv")
+			}
+		}
+	}
+	k := 0
+	for _, f := range fd.Type.Params.List {
+		for _, n := range f.Names {
+			add(n.Name, "_p"+strconv.Itoa(k))
+			k++
+		}
+	}
+	l := 0
+	ast.Inspect(fd.Body, func(n ast.Node) bool {
+		switch v := n.(type) {
+		case *ast.AssignStmt:
+			if v.Tok == token.DEFINE {
+				for _, lhs := range v.Lhs {
+					if id, ok := lhs.(*ast.Ident); ok {
+						if _, seen := names[id.Name]; !seen {
+							add(id.Name, "_l"+strconv.Itoa(l))
+							l++
+						}
+					}
+				}
+			}
+		case *ast.ValueSpec:
+			for _, id := range v.Names {
+				if _, seen := names[id.Name]; !seen {
+					add(id.Name, "_l"+strconv.Itoa(l))
+					l++
+				}
+			}
+		}
+		return true
+	})
+	src := p.src(fd.Body)
+	// token-level renaming: identifiers not preceded by '.' and not followed by ':' inside a composite literal key
+	var sc scanner.Scanner
+	fset := token.NewFileSet()
+	file := fset.AddFile("", fset.Base(), len(src))
+	sc.Init(file, []byte(src), nil, 0)
+	var out []string
+	var orig []string
+	prev := token.ILLEGAL
+	for {
+		_, tok, lit := sc.Scan()
+		if tok == token.EOF {
+			break
+		}
+		text := lit
+		if text == "" {
+			text = tok.String()
+		}
+		if tok == token.SEMICOLON && lit == "\n" {
+			prev = tok
+			continue
+		}
+		if tok == token.IDENT && prev != token.PERIOD {
+			if c, ok := names[lit]; ok {
+				text = c
+			}
+		}
+		out = append(out, text)
+		orig = append(orig, lit)
+		prev = tok
+	}
+	// composite-literal keys (`memoizer{iter: iter}`): the key is a field name, undo its renaming
+	for i := 1; i+1 < len(out); i++ {
+		if out[i+1] == ":" && (out[i-1] == "{" || out[i-1] == ",") && orig[i] != "" {
+			out[i] = orig[i]
+		}
+	}
+	return strings.Join(out, " ")
+}
+
 func (p *pkgInfo) emitFacts(o *out) {
 	// G4: the four monitor functions, comment-free and whitespace-normalised
 	o.line("-- G4 monitor functions (normalised source) and lock discipline")
@@ -32,7 +123,7 @@ func (p *pkgInfo) emitFacts(o *out) {
 		fd := p.funcs[k]
 		body := "<missing>"
 		if fd != nil {
-			body = p.src(fd.Body)
+			body = p.alphaSrc(fd)
 		} else {
 			o.problem("monitor function %s not found", k)
 		}
